@@ -47,12 +47,27 @@ class Scenario:
         steps = []
         for index, (flavour, outcome, args_index, duration) in enumerate(params["calls"]):
             body = ([("sleep", duration)] if duration else []) + \
+                ([("wait-weak", "waiters")] if params.get("weak_wait") else []) + \
                 ([] if tuple(outcome) == ("return", "None") else [tuple(outcome)])
             desc = {"id": "x%d" % index, "flavour": flavour, "steps": body,
                     "args": ARGS[args_index][0], "kwargs": ARGS[args_index][1],
                     "plain": bool(params.get("plain"))}
             self.calls.append(desc)
             steps.append(("execute", desc))
+
+        if params.get("weak_wait"):
+            # the payload waits for a reply; the replier only knows the future weakly, and
+            # runs the garbage collector before it replies
+            def release(_env):
+                import gc
+
+                gc.collect()
+                for future in list(env.shared.get("waiters", ())):
+                    future.get_loop().call_soon_threadsafe(future.set_result, None)
+
+            env.shared["release"] = release
+            kit.submit({"id": "replier", "flavour": "threading",
+                        "steps": [("sleep", 1.0), ("call", "release"), ("block",)]})
 
         def caller():
             runtime.running.wait()
@@ -241,6 +256,12 @@ def scenario_params(tier):
             for outcome in (("return", "object"), ("raise", "LookupError")):
                 out.append({"context": context, "plain": True,
                             "calls": [(flavour, outcome, 1, 0.0)]})
+    # the executed asyncio payload waits for a reply whose sender knows it only weakly
+    for context in CONTEXTS:
+        if allowed(context, "asyncio"):
+            for outcome in (("return", "object"), ("raise", "LookupError")):
+                out.append({"context": context, "weak_wait": True,
+                            "calls": [("asyncio", outcome, 1, 0.0)]})
     # the call is the very first step of a payload queued before the runtime starts
     for context, flavour in itertools.product(CONTEXTS[1:], FLAVOURS):
         if allowed(context, flavour):
